@@ -2,12 +2,20 @@ import AasVerif.Model.Expr.Wire
 import AasVerif.Model.Expr.Eval
 import AasVerif.Model.SdkVerify
 import AasVerif.Model.PyEmit
+import AasVerif.Model.PyParse
+import AasVerif.Model.EvalOrder
 import AasVerif.Model.PyRules
 /-!
 Line protocol of C08.
 
     verify <world> <val>      → the errors in order, then the exception (if any)
     eval   <world> <expr>     → outcome of `Expr.eval` with `self` etc. bound by the world
+    emit   <cfg> <top> <expr> → `ok <parenOK> <pyexpr> <tokens> <reading>`: the transpiled expression, its token
+                                sequence (`PyEmit.print`) and what `PyEmit.parse` reads from it
+                                (`ok:<1 iff equal to strip>:<pyexpr>` | `outside` | `fail`)
+    pyparse <tokens>          → `ok <pyexpr>` | `outside` | `fail` (`PyEmit.parse`)
+    trace  <world> <expr>     → the events of `Expr.trace`, each `kind|outcome of the operation`, space separated
+    emittrace <cfg> <world> <expr> → `same` when `PyExpr.trace` of the transpiled expression is `Expr.trace` of the source
 
 All structured arguments are comma-separated prefix token streams (no spaces):
 
@@ -332,6 +340,113 @@ mutual
     | .paren e => "P" :: encPy e
 end
 
+/-! ### tokens -/
+open AasVerif.PyEmit in
+def encTok : Tok → String
+  | .that => "T"
+  | .var x => "V:" ++ Text.enc x
+  | .constRef x => "C:" ++ Text.enc x
+  | .enumRef x => "E:" ++ Text.enc x
+  | .funRef x => "F:" ++ Text.enc x
+  | .noneK => "N" | .trueK => "t" | .falseK => "f"
+  | .int n => "I:" ++ toString n
+  | .float r => "D:" ++ Text.enc r
+  | .str s => "S:" ++ Text.enc s
+  | .fstart => "fs" | .fmid s => "fm:" ++ Text.enc s | .lbrace => "{" | .rbrace => "}" | .fend => "fe"
+  | .lpar => "(" | .rpar => ")" | .lbrack => "[" | .rbrack => "]" | .comma => "c" | .dot => "d"
+  | .attrName k n => (match k with | .prop => "aP:" | .enumLit => "aL:" | .method => "aM:") ++ Text.enc n
+  | .plus => "pl" | .minus => "mi"
+  | .cmp c => Expr.Wire.encCmp c
+  | .kwIn => "in" | .kwIs => "is" | .kwNot => "not" | .kwAnd => "and" | .kwOr => "or" | .kwFor => "for"
+  | .anyK => "any" | .allK => "all" | .rangeK => "range"
+
+open AasVerif.PyEmit in
+def decTok (s : String) : Option Tok :=
+  match s.splitOn ":" with
+  | ["T"] => some .that
+  | ["V", x] => (Text.dec x).map .var
+  | ["C", x] => (Text.dec x).map .constRef
+  | ["E", x] => (Text.dec x).map .enumRef
+  | ["F", x] => (Text.dec x).map .funRef
+  | ["N"] => some .noneK | ["t"] => some .trueK | ["f"] => some .falseK
+  | ["I", n] => n.toNat?.map .int
+  | ["D", x] => (Text.dec x).map .float
+  | ["S", x] => (Text.dec x).map .str
+  | ["fs"] => some .fstart | ["fm", x] => (Text.dec x).map .fmid
+  | ["{"] => some .lbrace | ["}"] => some .rbrace | ["fe"] => some .fend
+  | ["("] => some .lpar | [")"] => some .rpar | ["["] => some .lbrack | ["]"] => some .rbrack
+  | ["c"] => some .comma | ["d"] => some .dot
+  | ["aP", x] => (Text.dec x).map (.attrName .prop)
+  | ["aL", x] => (Text.dec x).map (.attrName .enumLit)
+  | ["aM", x] => (Text.dec x).map (.attrName .method)
+  | ["pl"] => some .plus | ["mi"] => some .minus
+  | ["lt"] => some (.cmp .lt) | ["le"] => some (.cmp .le) | ["gt"] => some (.cmp .gt)
+  | ["ge"] => some (.cmp .ge) | ["eq"] => some (.cmp .eq) | ["ne"] => some (.cmp .ne)
+  | ["in"] => some .kwIn | ["is"] => some .kwIs | ["not"] => some .kwNot | ["and"] => some .kwAnd
+  | ["or"] => some .kwOr | ["for"] => some .kwFor
+  | ["any"] => some .anyK | ["all"] => some .allK | ["range"] => some .rangeK
+  | _ => none
+
+def encToks (ts : List PyEmit.Tok) : String :=
+  if ts.isEmpty then "[]" else ",".intercalate (ts.map encTok)
+
+def decToks (s : String) : Option (List PyEmit.Tok) :=
+  if s == "[]" then some [] else
+  (s.splitOn ",").foldr (fun p acc => match decTok p, acc with
+    | some t, some l => some (t :: l)
+    | _, _ => none) (some [])
+
+/-- what `PyEmit.parse` reads; `want`: the tree it should be (for the equality flag) -/
+def encReading (r : PyEmit.PR PyEmit.PyExpr) (want : Option PyEmit.PyExpr) : String :=
+  match r with
+  | .ok y _ =>
+    let w := ",".intercalate (encPy y)
+    match want with
+    | some x => "ok:" ++ b01 (w == ",".intercalate (encPy x)) ++ ":" ++ w
+    | none => "ok " ++ w
+  | .outside => "outside"
+  | .fail => "fail"
+
+/-! ### evaluation order -/
+
+/-- names no identifier can have, for the operands of an event -/
+def tmpName (i : Nat) : Text := [0, i]
+
+def opKind : Op → String
+  | .load _ _ => "load" | .loadFn _ => "loadfn" | .getattr _ _ => "getattr" | .getmeth _ _ => "getmeth"
+  | .index _ _ => "index" | .cmp _ _ _ => "cmp" | .isIn _ _ => "isin" | .arith _ _ _ => "arith"
+  | .call _ _ => "call" | .callMethod _ _ _ => "callmethod" | .iter _ => "iter" | .range _ _ => "range" | .fmt _ => "fmt"
+
+/-- an event on the wire: the exception it records (`Ev.raised`), else the result of the operation, computed by the
+evaluator itself on the operand values -/
+def evOut (ρ : Env) (ev : Ev) : String :=
+  match ev.raised with
+  | some o => opKind ev.op ++ "|" ++ encOut o
+  | none =>
+    opKind ev.op ++ "|" ++
+    (match ev.op with
+    | .load _ o => encOut o
+    | .loadFn _ => "ok"
+    | .getattr v n => encOut (eval (ρ.bind (tmpName 0) v) (.member (.name (tmpName 0)) n))
+    | .getmeth _ _ => "ok"
+    | .index c i => encOut (eval ((ρ.bind (tmpName 0) c).bind (tmpName 1) i) (.index (.name (tmpName 0)) (.name (tmpName 1))))
+    | .cmp op l r => encOut (eval ((ρ.bind (tmpName 0) l).bind (tmpName 1) r) (.cmp (.name (tmpName 0)) op (.name (tmpName 1))))
+    | .isIn m c => encOut (eval ((ρ.bind (tmpName 0) m).bind (tmpName 1) c) (.isIn (.name (tmpName 0)) (.name (tmpName 1))))
+    | .arith add l r =>
+      let ρ' := (ρ.bind (tmpName 0) l).bind (tmpName 1) r
+      encOut (eval ρ' (if add then .add (.name (tmpName 0)) (.name (tmpName 1)) else .sub (.name (tmpName 0)) (.name (tmpName 1))))
+    | .call f args =>
+      let names := (List.range args.length).map tmpName
+      let ρ' : Env := { ρ with vars := (names.zip args).reverse ++ ρ.vars }
+      encOut (eval ρ' (.funCall f (names.map .name)))
+    | .callMethod _ _ _ => "-"
+    | .iter _ => "ok"
+    | .range _ _ => "ok"
+    | .fmt v => encOut (fmtVal ρ v))
+
+def encTrace (ρ : Env) (evs : List Ev) : String :=
+  if evs.isEmpty then "-" else " ".intercalate (evs.map (evOut ρ))
+
 /-! ### parse rules -/
 open AasVerif.PyAst in
 def pCmpOp : String → Option PyCmpOp
@@ -419,7 +534,28 @@ def handle : List String → Option String
     let e ← Expr.Wire.dec e
     let r := if top == "1" then PyEmit.transpileInvariant cfg e else PyEmit.transpile cfg [] e
     match r with
-    | .ok x => some ("ok " ++ b01 (PyEmit.parenOK x) ++ " " ++ ",".intercalate (encPy x))
+    | .ok x =>
+      let toks := PyEmit.print x
+      some ("ok " ++ b01 (PyEmit.parenOK x) ++ " " ++ ",".intercalate (encPy x) ++ " " ++ encToks toks ++ " " ++
+        encReading (PyEmit.parse toks) (some (PyEmit.strip x)))
+    | .err => some "err"
+    | .crash => some "crash"
+  | ["pyparse", ts] => do
+    let ts ← decToks ts
+    some (encReading (PyEmit.parse ts) none)
+  | ["trace", w, e] => do
+    let w ← decAll pWorld w
+    let e ← Expr.Wire.dec e
+    some (encTrace w.env (trace w.env e))
+  | ["emittrace", cfg, w, e] => do
+    let cfg ← decAll pCfg cfg
+    let w ← decAll pWorld w
+    let e ← Expr.Wire.dec e
+    match PyEmit.transpile cfg [] e with
+    | .ok x =>
+      let a := encTrace w.env (PyEmit.PyExpr.trace w.env x)
+      let b := encTrace w.env (trace w.env e)
+      some (if a == b then "same" else "differ " ++ a ++ " / " ++ b)
     | .err => some "err"
     | .crash => some "crash"
   | ["verify", w, v] => do
